@@ -25,6 +25,10 @@ Definition t_deq (a b : tdict) : Prop := forall k, alookup k a = alookup k b.
 
 Definition triv {X} (x : X) : Prop := True.
 
+(** ASCII lower-casing (what [str::to_lowercase] does on the alphabet of the case-variant inputs
+    of the correspondence run) *)
+Definition lower_ascii (x : str) : str := map (fun c => if (65 <=? c) && (c <=? 90) then c + 32 else c) x.
+
 (** the toy font-info validator: guideline identifiers are distinct (the part of
     [FontInfo::validate] the font-level logic relies on) *)
 Definition toy_info_ok (i : finfo N N tdict) : bool :=
@@ -57,6 +61,7 @@ Definition toy_sig : sig := {|
   kerning_dflt := 0; kerning_is_empty := fun k => k =? 0;
   ceq := eq;
   groups_ok := fun _ => true; info_ok := toy_info_ok;
+  lower := lower_ascii;
   glyph_name := fst; set_name := fun n g => (n, snd g);
   legacy_info := fun _ _ => None;
   upconvert_kerning := fun g k _ => (g, k);
